@@ -32,6 +32,14 @@ struct St {
     to_post: u64,         // next sequence number to complete (consumed ones below kernel_next)
     reap_next: u64,       // next sequence number the application must reap
     ops: u8,              // application operations performed so far (bounds the search)
+    /// the application still holds the reference the last `get_next_cqe` returned and has not looked at it yet:
+    /// 0 no, 1 it points into completion slot `held_slot` of the shared ring, 2 it points at a private copy
+    held: u8,
+    held_slot: u8,
+    /// what the held reference must show when it is read: the completion that was due at the call
+    held_want: (u64, i32),
+    /// what a private copy held at the time of the call
+    held_copy: (u64, i32),
     bad: Option<String>,
 }
 
@@ -39,7 +47,11 @@ struct St {
 enum Step {
     Get,
     Flush,
+    /// `get_next_cqe` and a look at the entry at once
     Reap,
+    /// `get_next_cqe`, the reference is kept; the kernel may run before `ReapRead` looks at it
+    ReapCall,
+    ReapRead,
     Consume1,
     ConsumeAll,
     Post1,
@@ -150,8 +162,23 @@ thread_local! {
 fn apply(s: &St, step: Step, c: &Cfg) -> Option<St> {
     let mut n = s.clone();
     match step {
-        Step::Get | Step::Flush | Step::Reap => {
-            if s.ops >= c.max_ops {
+        Step::ReapRead => {
+            if s.held == 0 {
+                return None;
+            }
+            n.held = 0;
+            let seen = if s.held == 1 { s.cq_data[s.held_slot as usize] } else { s.held_copy };
+            if seen != s.held_want {
+                n.bad = Some(format!(
+                    "get_next_cqe:entry-changed-before-the-caller-read-it|the reference returned for completion #{} (res {}) shows user_data {} res {} when it is read after the kernel has run: the slot was given back to the kernel before the entry was read",
+                    s.held_want.0, s.held_want.1, seen.0, seen.1
+                ));
+            }
+            Some(n)
+        }
+        Step::Get | Step::Flush | Step::Reap | Step::ReapCall => {
+            // the returned reference borrows the ring: no other method can be called while it is held
+            if s.ops >= c.max_ops || s.held != 0 {
                 return None;
             }
             n.ops += 1;
@@ -215,7 +242,28 @@ fn apply(s: &St, step: Step, c: &Cfg) -> Option<St> {
                         }
                     },
                     _ => {
-                        let got = catch(|| r.get_next_cqe().map(|e| (e.0.user_data, e.0.res)));
+                        let cq_lo = m.cqes.as_ptr() as usize;
+                        let cq_hi = cq_lo + core::mem::size_of_val(&m.cqes);
+                        let stride = cqe_stride(c);
+                        let mut at: Option<usize> = None;
+                        let got = catch(|| {
+                            r.get_next_cqe().map(|e| {
+                                at = Some(e as *const IoUringCompletionQueueEntry as usize);
+                                (e.0.user_data, e.0.res)
+                            })
+                        });
+                        if step == Step::ReapCall {
+                            if let (Ok(Some(v)), Some(a)) = (&got, at) {
+                                if a >= cq_lo && a < cq_hi {
+                                    n.held = 1;
+                                    n.held_slot = ((a - cq_lo) / stride) as u8;
+                                } else {
+                                    n.held = 2;
+                                    n.held_copy = *v;
+                                }
+                                n.held_want = (s.reap_next, res_of(s.reap_next));
+                            }
+                        }
                         match got {
                             Err(p) => n.bad = Some(format!("get_next_cqe:panic|{p}")),
                             Ok(x) => {
@@ -307,7 +355,7 @@ fn apply(s: &St, step: Step, c: &Cfg) -> Option<St> {
     }
 }
 
-const STEPS: [Step; 7] = [Step::Get, Step::Flush, Step::Reap, Step::Consume1, Step::ConsumeAll, Step::Post1, Step::PostAll];
+const STEPS: [Step; 9] = [Step::Get, Step::Flush, Step::Reap, Step::ReapCall, Step::ReapRead, Step::Consume1, Step::ConsumeAll, Step::Post1, Step::PostAll];
 
 fn start_values() -> Vec<u32> {
     vec![0, 1, (1u32 << 31) - 1, 1u32 << 31, u32::MAX - 3, u32::MAX - 2, u32::MAX - 1, u32::MAX]
@@ -329,6 +377,10 @@ fn init(v_sq: u32, v_cq: u32) -> St {
         to_post: 0,
         reap_next: 0,
         ops: 0,
+        held: 0,
+        held_slot: 0,
+        held_want: (0, 0),
+        held_copy: (0, 0),
         bad: None,
     }
 }
@@ -430,7 +482,7 @@ fn main() {
         r
     });
     r.sample(json!({"sq_entries": 2, "cq_entries": 2, "start": "0xfffffffe", "steps": ["Get", "Flush", "Consume1", "Post1", "Reap", "Get", "Get", "Flush"]}));
-    r.rule = "explicit-state BFS over all interleavings of application steps {get slot+stamp, flush, reap} (calling the real IoUring methods through hook H1) and kernel steps \
+    r.rule = "explicit-state BFS over all interleavings of application steps {get slot+stamp, flush, reap, reap-call / read-the-returned-reference-later} (calling the real IoUring methods through hook H1) and kernel steps \
               {consume 1/all, post 1/all}, to a bound of 2*entries+6 application operations, for each ring size, CQ size, flag set and each start value of the SQ and CQ counters \
               (0, 1, 2^31-1, 2^31, u32::MAX-3..u32::MAX); one evaluation = one (configuration, start values) state space searched to exhaustion"
         .into();
